@@ -431,11 +431,8 @@ theorem parse_format_timestamp (c : Chrono) (ctx z : Zone) (t : Int) (f : List N
         simp [formatTimestamp, bytesLossy, hf, tzArg, hvalid, hzone, hfm, toStringOrPanic]
     · -- parse side
       have hdt : datetimeToUtc (t / 1000000000, (t % 1000000000).toNat) = .ok (.ts t) := by
-        unfold datetimeToUtc minSecs maxSecs
-        have h1 : ¬ ((t % 1000000000).toNat ≥ 2000000000 ∨
-            ((t % 1000000000).toNat ≥ 1000000000 ∧ t / 1000000000 % 60 ≠ 59)) := by omega
-        have h2 : -8334601228800 ≤ t / 1000000000 ∧ t / 1000000000 ≤ 8210266876799 := by omega
-        simp only [h1, h2, and_self, ↓reduceIte, Res.ok.injEq, Value.ts.injEq]
+        unfold datetimeToUtc
+        simp only [Res.ok.injEq, Value.ts.injEq]
         omega
       cases tz' with
       | none =>
